@@ -18,6 +18,23 @@ type Dynamo struct {
 	now   map[string]Item
 	prev  map[string]Item
 	Calls []string
+	// FailNext makes the next request of that kind fail inside the service or on the way, with an SDK-typed error carrying the given
+	// code, without touching the table: "put:<Code>", "get:<Code>", "query:<Code>"
+	FailNext string
+}
+
+// APIError is a service/transport failure with an AWS error code (the clients turn it into the SDK's typed error).
+type APIError struct{ Code string }
+
+func (e *APIError) Error() string { return e.Code + ": injected failure" }
+
+func (d *Dynamo) injected(kind string) error {
+	if strings.HasPrefix(d.FailNext, kind+":") {
+		code := d.FailNext[len(kind)+1:]
+		d.FailNext = ""
+		return &APIError{Code: code}
+	}
+	return nil
 }
 
 // Item: the key plus the opaque SDK-specific attribute map.
@@ -47,6 +64,9 @@ func (d *Dynamo) Get(table, id string, created int64, consistent bool) (*Item, e
 	d.mu.Lock()
 	defer d.mu.Unlock()
 	d.Calls = append(d.Calls, fmt.Sprintf("GetItem consistent=%v", consistent))
+	if err := d.injected("get"); err != nil {
+		return nil, err
+	}
 	if table != d.Table {
 		return nil, ErrTableNotFound
 	}
@@ -63,6 +83,9 @@ func (d *Dynamo) Put(table string, it Item, condition string, names map[string]s
 	d.mu.Lock()
 	defer d.mu.Unlock()
 	d.Calls = append(d.Calls, "PutItem condition="+condition)
+	if err := d.injected("put"); err != nil {
+		return err
+	}
 	if table != d.Table {
 		return ErrTableNotFound
 	}
@@ -98,6 +121,9 @@ func (d *Dynamo) Query(table, keyCond string, names map[string]string, value fun
 	d.mu.Lock()
 	defer d.mu.Unlock()
 	d.Calls = append(d.Calls, fmt.Sprintf("Query consistent=%v forward=%v limit=%d", consistent, forward, limit))
+	if err := d.injected("query"); err != nil {
+		return nil, err
+	}
 	if table != d.Table {
 		return nil, ErrTableNotFound
 	}
